@@ -129,6 +129,14 @@ def gen_cases(tier: str, seed: int):
           "ALTER TABLE T1 SET COMMENT = 'never committed either'", "ROLLBACK", "SET hv = 1", "ALTER TABLE T1 SET TAG cost = 'x'", "INSERT INTO T1 VALUES (2, 'b')"]
     yield {"kind": "history", "history": rb, "stride": 3 if tier == "quick" else 1, "offset": 0, "with_conn": False,
            "expect_comments": [["S1", "T1", "first"]]}
+    # a statement fails inside a transaction (NOT NULL), the application carries on and rolls back at the end: whatever the later
+    # statements of that transaction were answered, nothing of the transaction is there for the next process
+    ft = ["CREATE TABLE T1 (ID INT NOT NULL, S VARCHAR(10)) COMMENT = 'first'", "INSERT INTO T1 VALUES (1, 'a')", "BEGIN", "INSERT INTO T1 VALUES (100, 'tx')",
+          "#TRY INSERT INTO T1 VALUES (NULL, 'bad')", "#TRY INSERT INTO T1 VALUES (101, 'later')", "#TRY UPDATE T1 SET S = 'touched' WHERE ID = 1",
+          "#TRY CREATE TABLE MADE_IN_TXN (ID INT, S VARCHAR(3)) COMMENT = 'never committed'", "#TRY ROLLBACK", "INSERT INTO T1 VALUES (2, 'b')"]
+    for wc in (False, True):
+        yield {"kind": "history", "history": ft, "stride": 3 if tier == "quick" else 1, "offset": int(wc), "with_conn": wc,
+               "expect_rows": {"DB1.S1.T1": "(2, 'b')"}, "expect_exact": {"DB1.S1.T1": ["(1, 'a')", "(2, 'b')"]}, "expect_no_table": ["DB1.S1.MADE_IN_TXN"]}
     # a TRANSIENT table is a permanent table (no fail-safe period): it is there for the next process like any other
     tr = ["CREATE TABLE T1 (ID INT, S VARCHAR(10)) COMMENT = 'first'", "INSERT INTO T1 VALUES (1, 'a')",
           "CREATE TRANSIENT TABLE TR1 (ID INT, NOTE VARCHAR(9)) COMMENT = 'transient'", "INSERT INTO TR1 VALUES (5, 'kept')",
@@ -222,6 +230,12 @@ def _child_run(case_dir: str, db_dir: str, history: list[str], mode: str, kill_a
                         cur.executemany("INSERT INTO NO_SUCH_T18 (ID) VALUES (%s)", [(905,), (906,)])
                     else:
                         cur.executemany("INSERT INTO T1 (ID, S) VALUES (%s, %s)", [(907, "ok"), ("not a number", "x")])
+                except Exception:  # noqa: BLE001
+                    pass
+            elif stmt.startswith("#TRY "):
+                # a statement the application expects may fail: it catches whatever is raised and carries on
+                try:
+                    cur.execute(stmt[5:])
                 except Exception:  # noqa: BLE001
                     pass
             elif stmt.startswith("#WRITE_PANDAS"):
@@ -414,6 +428,15 @@ def run_case(case: dict, env: core.Env) -> None:
                     for tbl, row in case["expect_rows"].items():
                         if row not in got["rows"].get(tbl, {}):
                             env.witness(f"C18/acknowledged-state-lost/absolute/{tag}", f"{fault}: a later process does not find {row} in {tbl}: {sorted(got['rows'].get(tbl, {}))}")
+                            return
+                if case.get("expect_exact") and must_be == len(history):
+                    for tbl, rows_ in case["expect_exact"].items():
+                        if sorted(got["rows"].get(tbl, {})) != sorted(rows_):
+                            env.witness(f"C18/never-committed-rows-present/absolute/{tag}", f"{fault}: a later process reads {tbl} = {sorted(got['rows'].get(tbl, {}))} expected {sorted(rows_)}")
+                            return
+                    for tbl in case.get("expect_no_table", []):
+                        if tbl in got["rows"]:
+                            env.witness(f"C18/never-committed-table-present/absolute/{tag}", f"{fault}: a later process finds {tbl}")
                             return
                 if case.get("expect_comments") and must_be == len(history):
                     seen = rec.get("meta", {}).get("DB1", {}).get("comments")
